@@ -309,7 +309,7 @@ Section OpsSafe.
   Qed.
 
   Definition Pres (h tag : N) (H : hist) (r : result) : Prop :=
-    match r with ResIPs ips _ => Forall (recorded H h tag) ips | ResErr _ => True end.
+    match r with ResIPs ips _ => Forall (recorded H h tag) ips | _ => True end.
 
   Lemma aa_loop_safe fuel : forall H ips rem_aff owned num h tag host,
     Forall (recorded H h tag) ips -> safe H (aa_loop cf fuel ips rem_aff owned num h tag host) (Pres h tag).
@@ -452,6 +452,40 @@ Section OpsSafe.
     unfold release_by_handle. sb safe_get_handle. destruct r as [[m rev]|e]; [apply rbh_blocks_safe | sret].
   Qed.
 
+  Lemma release_block_affinity_safe H host c must : safe H (release_block_affinity host c must) Ptrue.
+  Proof.
+    unfold release_block_affinity. sb safe_get_aff. destruct r as [[st affrev]|e]; [|sret].
+    sb safe_get_block. destruct r as [[b brev]|e]; [|sret].
+    dif; [sb safe_delete_aff; sret|].
+    dif; [sret|].
+    sb safe_update_aff. destruct r as [affrev'|e]; [|sret].
+    assert (FIN : forall H', safe H' (d2 <- delete_aff host c affrev' ;;
+                                      match d2 with
+                                      | inl _ => Ret (inl tt)
+                                      | inr ENotFound => Ret (inl tt)
+                                      | inr e => Ret (inr e)
+                                      end) (@Ptrue (res unit))).
+    { intros H'. sb safe_delete_aff. destruct r as [u|e]; [sret|]. destruct e; sret. }
+    dif.
+    - sb safe_delete_block. destruct r as [u|e]; [apply FIN|]. destruct e; try sret. apply FIN.
+    - sb safe_update_block; [eapply known_mono; eauto | apply btrans_clear_aff |].
+      destruct r as [[b2 rev2]|e]; [apply FIN | sret].
+  Qed.
+
+  Lemma release_aff_loop_safe fuel : forall H host c must, safe H (release_aff_loop fuel host c must) Ptrue.
+  Proof.
+    induction fuel as [|f IH]; intros H host c must; simpl; [exact I|].
+    sb release_block_affinity_safe. destruct r as [u|e]; [sret|]. destruct e; try sret. apply IH.
+  Qed.
+
+  Lemma claim_aff_loop_safe fuel : forall H host c, safe H (claim_aff_loop cf fuel host c) Ptrue.
+  Proof.
+    induction fuel as [|f IH]; intros H host c; simpl; [exact I|].
+    sb get_pending_aff_safe. destruct r as [[st affrev]|e].
+    - sb claim_affine_block_safe. destruct r as [[b brev]|e]; [sret|]. destruct e; try sret. apply IH.
+    - destruct e; try sret. apply IH.
+  Qed.
+
   (* what a completed operation guarantees about its result *)
   Definition op_post (o : op) (H : hist) (r : result) : Prop :=
     match o with
@@ -467,6 +501,8 @@ Section OpsSafe.
     - apply assign_ip_loop_safe.
     - apply release_ips_safe.
     - apply release_by_handle_safe.
+    - apply claim_aff_loop_safe.
+    - apply release_aff_loop_safe.
   Qed.
 
   (* a client = its operations in sequence; it returns every (operation, result) pair *)
